@@ -540,6 +540,15 @@ func (rn *runner) Exec(op string) string {
 			return "none"
 		}
 		return fmt.Sprintf("sid=%d", id)
+	case "stop":
+		if len(f) != 2 {
+			return "bad-op"
+		}
+		id := vh.Atoi64(f[1])
+		if !rn.known[id] || id%4 == 2 || !rn.conn.StopReading(id) {
+			return "nostream"
+		}
+		return "ok"
 	case "cls":
 		if len(f) != 2 {
 			return "bad-op"
@@ -629,6 +638,7 @@ type gen struct {
 	lOpened int64
 	lTold   int64
 	lSt     map[int64]*lifeStream
+	lBulk   bool // the streams carry as much as the windows allow: the connection window is used up across streams
 }
 
 type lifeStream struct {
@@ -638,6 +648,7 @@ type lifeStream struct {
 	eof     bool
 	touched bool // the application holds it (read or closed)
 	cls     bool
+	stopped bool
 	lastOff int64
 	lastLen int64
 }
@@ -845,6 +856,7 @@ func (rn *runner) afterNew(r *vh.Rand) {
 	g.lKind = []string{"br", "uni"}[r.Intn(2)]
 	g.lTold = g.a.get(map[string]string{"br": "imsb", "uni": "imsu"}[g.lKind])
 	g.lSt = map[int64]*lifeStream{}
+	g.lBulk = r.Chance(40)
 }
 
 func (g *gen) tick(r *vh.Rand, fast bool) int64 {
@@ -1041,7 +1053,12 @@ func (rn *runner) genLife(r *vh.Rand) string {
 	g := &rn.g
 	t := g.tick(r, true)
 	credit := g.a.get(map[string]string{"br": "imsdbr", "uni": "imsdu"}[g.lKind])
-	room := func(st *lifeStream) int64 { return min(credit-st.sent, g.connCred-g.connSent, 40) }
+	room := func(st *lifeStream) int64 {
+		if g.lBulk {
+			return min(credit-st.sent, g.connCred-g.connSent, 4<<20)
+		}
+		return min(credit-st.sent, g.connCred-g.connSent, 40)
+	}
 	st := func(num int64) *lifeStream {
 		if g.lSt[num] == nil {
 			g.lSt[num] = &lifeStream{}
@@ -1057,7 +1074,11 @@ func (rn *runner) genLife(r *vh.Rand) string {
 			}
 			return fmt.Sprintf("pkt %d strm:%d:0:0", t, sidOf(g.lKind, num))
 		}
-		n = r.Range(1, n)
+		if g.lBulk {
+			n = []int64{n, n, n, max(1, n/2), max(1, n/3)}[r.Intn(5)]
+		} else {
+			n = r.Range(1, n)
+		}
 		off := s.sent
 		s.sent += n
 		g.connSent += n
@@ -1074,15 +1095,34 @@ func (rn *runner) genLife(r *vh.Rand) string {
 		if !s.fin {
 			unfinished = append(unfinished, num)
 		}
-		if !s.eof && (s.sent > s.read || s.fin) {
+		if !s.eof && !s.stopped && (s.sent > s.read || s.fin) {
 			readable = append(readable, num)
 		}
 		if g.lKind == "br" && s.touched && !s.cls {
 			closable = append(closable, num)
 		}
 	}
+	if g.lBulk && g.connSent > 0 && g.connCred-g.connSent < 1 {
+		// the peer is blocked on the connection window: the application consumes what there is, a packet leaves —
+		// the window has to move (bytes read, and the unread rest of finished streams it stopped reading)
+		if len(readable) > 0 && r.Chance(85) {
+			num := readable[r.Intn(len(readable))]
+			s := st(num)
+			if s.fin && r.Chance(45) { // … or gives up on a stream whose end is known: the unread rest is handed back
+				s.stopped, s.touched = true, true
+				return fmt.Sprintf("stop %d", sidOf(g.lKind, num))
+			}
+			n := s.sent - s.read
+			s.read, s.touched = s.sent, true
+			if s.fin {
+				s.eof = true
+			}
+			return fmt.Sprintf("rd %d %d", sidOf(g.lKind, num), max(n, 1))
+		}
+		return fmt.Sprintf("pack %d", t)
+	}
 	for range 8 {
-		switch r.Pick(26, 22, 26, 12, 14) {
+		switch r.Pick(26, 22, 26, 12, 14, 9) {
 		case 0: // the peer opens further streams by naming the last of them
 			if g.lOpened > g.lTold {
 				continue
@@ -1154,6 +1194,17 @@ func (rn *runner) genLife(r *vh.Rand) string {
 				return "acc " + map[string]string{"br": "b", "uni": "u"}[g.lKind]
 			}
 			return fmt.Sprintf("pack %d", t)
+		case 5: // the application stops reading a stream (before or after its end is known)
+			if g.lOpened < 1 {
+				continue
+			}
+			num := r.Range(1, min(g.lOpened, 5000))
+			s := st(num)
+			if s.stopped || (s.sent == 0 && !s.fin) {
+				continue
+			}
+			s.stopped, s.touched = true, true
+			return fmt.Sprintf("stop %d", sidOf(g.lKind, num))
 		}
 	}
 	return fmt.Sprintf("pack %d", t)
